@@ -195,6 +195,12 @@ class Interp:
             vals = [self.expr(x) for x in e.values]
             acc = vals[0]
             for nxt in vals[1:]:
+                def boolish(x):
+                    return isinstance(x, bool) or (is_sym(x) and z3.is_bool(x))
+                if boolish(acc) and boolish(nxt) and (is_sym(acc) or is_sym(nxt)):
+                    a_, b_ = (z3.BoolVal(acc) if isinstance(acc, bool) else acc), (z3.BoolVal(nxt) if isinstance(nxt, bool) else nxt)
+                    acc = z3.And(a_, b_) if isinstance(e.op, ast.And) else z3.Or(a_, b_)
+                    continue
                 if is_sym(acc) or is_sym(nxt):
                     a, b = bv(acc) if not z3.is_bool(acc) else acc, bv(nxt)
                     c = (a != z3.BitVecVal(0, W)) if not z3.is_bool(a) else a
